@@ -33,6 +33,11 @@ var atoms = []string{"1", "2", "42", "true", "false", "a", "b", "n", "\"x\"", "\
 func (x *g) atom() string { return atoms[x.r.Intn(len(atoms))] }
 
 func (x *g) two() (string, string) {
+	if x.r.Intn(12) == 0 {
+		// two long texts that agree for their first 80 characters and differ at the end: textually NOT identical
+		p := "\"the quick brown fox jumps over the lazy dog and the five boxing wizards jump quickly again "
+		return p + "one\"", p + "two\""
+	}
 	a := x.atom()
 	b := x.atom()
 	for b == a {
